@@ -52,6 +52,17 @@ static const uint64_t vf_p10[20] = {1ULL, 10ULL, 100ULL, 1000ULL, 10000ULL, 1000
   10000000000ULL, 100000000000ULL, 1000000000000ULL, 10000000000000ULL, 100000000000000ULL, 1000000000000000ULL, 10000000000000000ULL,
   100000000000000000ULL, 1000000000000000000ULL, 10000000000000000000ULL};
 
+/* "the raw expression is defined": overflow predicates of the C abstract machine */
+#ifdef VF_CBMC
+#define VF_MUL_OVF(T, a, b) __CPROVER_overflow_mult((T)(a), (T)(b))
+#define VF_ADD_OVF(T, a, b) __CPROVER_overflow_plus((T)(a), (T)(b))
+#define VF_SUB_OVF(T, a, b) __CPROVER_overflow_minus((T)(a), (T)(b))
+#else
+#define VF_MUL_OVF(T, a, b) ({ T vf_r_; __builtin_mul_overflow((T)(a), (T)(b), &vf_r_); })
+#define VF_ADD_OVF(T, a, b) ({ T vf_r_; __builtin_add_overflow((T)(a), (T)(b), &vf_r_); })
+#define VF_SUB_OVF(T, a, b) ({ T vf_r_; __builtin_sub_overflow((T)(a), (T)(b), &vf_r_); })
+#endif
+
 #ifdef VF_CBMC
 #define ASSUME(c) __CPROVER_assume(c)
 #define CHECK(c, name) __CPROVER_assert((c), "POST:" name)
